@@ -18,7 +18,7 @@ from harness import common
 from harness.props import C01
 
 PID = "C02"
-TRANSLATORS = ["T-jumpi", "T-consts", "T-branchpts"]
+TRANSLATORS = ["T-jumpi", "T-consts", "T-branchpts", "T-assertbranch"]
 
 OPTIONS = [{}, {"solver_timeout_branching": 0}, {"solver_timeout_branching": 10000}, {"loop": 1}, {"loop": 3}, {"solver_timeout_branching": 10000, "loop": 1}]
 PLAN_QUICK = [("branch", 18), ("memory", 6), ("storage", 10), ("hash", 8), ("loop", 12), ("call", 10), ("create", 6), ("symtarget", 24), ("valuecall", 18), ("callfail", 8), ("corr", 24), ("symloop", 10)]
